@@ -224,6 +224,14 @@ def plan (lines : Lines) (f : Facts) (endLn endCol : Nat) : Except PlanErr Plan 
         .ok { special := false, inBlkhead, copyLines := cl, path, setAst := false, firstLineno := fl, delta,
               pendLn, pendCol }
 
+/-- Header-only reparse: where the end of the block header (`pend`, just past the `:`) will be after the put, which ends
+before it (`blkhead_end` passed to `_reparse_raw_base`). -/
+def headEndAfter (pend : Nat × Nat) (new : Lines) (r : Rect) : Nat × Nat :=
+  let dln := new.length - 1
+  if pend.1 == r.endLn then
+    (r.ln + dln, pend.2 - r.endCol + (new.getLast?.getD []).length + (if dln == 0 then r.col else 0))
+  else (pend.1 + dln - r.endLn + r.ln, pend.2)
+
 /-- The text handed to the parser: the copy with the new text spliced in at the SAME rectangle. -/
 def handed (p : Plan) (new : Lines) (r : Rect) : Lines := putSrc p.copyLines new r
 
@@ -377,12 +385,44 @@ def setEndPosFrom (new old : Int × Int) : List Frame → List Frame
       let f' : Frame := { f with pos := setEnd f.pos (some new) }
       if (fs.head?.map (fun g => g.right.isEmpty)).getD false then f' :: setEndPosFrom new old fs else f' :: fs
 
+/-- The block fields of a statement-like node (`_STMTLIKE_FIELDS`), in syntax order. `none` = the node has no such
+attribute (`getattr(a, field, None) is None`), `some []` = the attribute is an EMPTY list: the code distinguishes the two. -/
+structure Blocks where
+  body : Option (List Node) := none
+  handlers : Option (List Node) := none
+  orelse : Option (List Node) := none
+  finalbody : Option (List Node) := none
+  cases : Option (List Node) := none
+deriving Repr, Inhabited
+
+/-- `if (body := getattr(old, field, None)) is not None: setattr(new, field, body)` for one field -/
+def keepOld {α : Type} (old new : Option α) : Option α :=
+  match old with
+  | some l => some l
+  | none => new
+
+/-- `for field in _STMTLIKE_FIELDS: if (body := getattr(old, field, None)) is not None: setattr(new, field, body)` -/
+def graftBlocks (old new : Blocks) : Blocks :=
+  { body := keepOld old.body new.body, handlers := keepOld old.handlers new.handlers,
+    orelse := keepOld old.orelse new.orelse, finalbody := keepOld old.finalbody new.finalbody,
+    cases := keepOld old.cases new.cases }
+
+def Blocks.flat (b : Blocks) : List Node :=
+  b.body.getD [] ++ b.handlers.getD [] ++ b.orelse.getD [] ++ b.finalbody.getD [] ++ b.cases.getD []
+
+def Blocks.map (g : List Node → List Node) (b : Blocks) : Blocks :=
+  { body := b.body.map g, handlers := b.handlers.map g, orelse := b.orelse.map g, finalbody := b.finalbody.map g,
+    cases := b.cases.map g }
+
 structure TreeMode where
   setAst : Bool            -- whole statement grafted (else header-only)
   firstLineno : Nat
   delta : Int
   nOldHead : Nat           -- header-only: number of leading non-block children of the old node
   nNewHead : Nat           -- header-only: number of leading non-block children of the parsed node
+  oldBlocks : Blocks := {} -- header-only: the block fields of the old node (positions before the put)
+  newBlocks : Blocks := {} -- header-only: the block fields of the parsed node (the synthetic `pass`, `except: pass`, ...)
+  headEndSame : Bool := true  -- header-only: the parsed header ends (just past its `:`) where the put leaves the old colon
   noEndCopy : Bool         -- header-only: the node is a `match_case` (no position to copy)
   follows : Bool           -- something other than the synthetic `finally: pass` follows the parsed node in the wrapper:
                            -- a node at any level, or text other than a comment / continuation on its last line (`;`)
@@ -396,14 +436,15 @@ of the same kind at the same place and nothing after it; otherwise the change re
 is reparsed instead. `sub` is the parsed node BEFORE the first-line delta is applied in the code, the comparison is on
 character columns there; here it is made on byte columns after the delta (same line prefix). -/
 def guardOk (m : TreeMode) (old sub : Node) : Bool :=
-  !m.follows && m.sameParentKind && sub.kind == old.kind && (match m.sameStart with | some b => b | none => sub.startPtD == old.startPtD)
+  !m.follows && m.sameParentKind && m.headEndSame && sub.kind == old.kind && (match m.sameStart with | some b => b | none => sub.startPtD == old.startPtD)
 
 /-- The tree effect of a successful statement-level reparse: `sub` is the node found in the parsed wrapper by the path.
 * `set_ast`: everything outside the old node is offset with `tail = head = True` (`exclude = self`); the old node is
   replaced by `sub` after the first-line delta; ancestors that ended exactly with the old node (`_tail_parent`) get the
   end of the new node (`_set_end_pos(new, old)`).
-* header-only: everything including the old node is offset; the parsed header replaces the old header, the old block
-  children are kept, the end position is copied from the (offset) old node. -/
+* header-only: everything including the old node is offset; the parsed header replaces the old header, every block field
+  the old node has (empty lists included) replaces the parsed one (`graftBlocks`), the end position is copied from the
+  (offset) old node. -/
 def reparseTree (o : Off) (m : TreeMode) (z : Zip) (sub : Node) : Zip :=
   let ctx := z.ctx.map (mapFrame (movePos o))
   let sub := applyDelta m.firstLineno m.delta sub
@@ -419,7 +460,8 @@ def reparseTree (o : Off) (m : TreeMode) (z : Zip) (sub : Node) : Zip :=
   else
     let old := mapNode (movePos o) z.focus
     let pos := if m.noEndCopy then sub.pos else setEnd sub.pos old.endPt
-    { ctx, focus := .mk sub.kind pos (sub.kids.take m.nNewHead ++ old.kids.drop m.nOldHead) }
+    { ctx, focus := .mk sub.kind pos
+        (sub.kids.take m.nNewHead ++ (graftBlocks (m.oldBlocks.map (mapList (movePos o))) m.newBlocks).flat) }
 
 /-- `_reparse_raw` after the repair: the incremental attempt (`_reparse_raw_stmtlike`) is used only if the wrapper parses,
 the node is found and the guard holds; in every other case NOTHING has been touched yet and the whole source is spliced
